@@ -134,9 +134,10 @@ func (s Step) String() string {
 
 // Plan is a complete DB-level case.
 type Plan struct {
-	Profile string  `json:"profile"`
-	Opt     OptPlan `json:"opt"`
-	Steps   []Step  `json:"steps"`
+	Profile string     `json:"profile"`
+	Opt     OptPlan    `json:"opt"`
+	Steps   []Step     `json:"steps"`
+	Crash   *CrashPlan `json:"crash,omitempty"`
 }
 
 func (p Plan) Summary() any {
